@@ -23,6 +23,7 @@
 import Vita.C09.LemmasRead
 import Vita.C09.LemmasSniff
 import Vita.C09.LemmasTable
+import Vita.C09.LemmasXrff
 
 namespace Vita.C09
 
@@ -233,7 +234,7 @@ theorem rows_faithful (cfg : Cfg) (o : NumOracle F) (d : Char) (eol : Str) (t : 
   · rw [hex, (specRows_inputs o _ _ [] (fun r' hr' => by
       simp only [List.mem_map] at hr'
       obtain ⟨r, hr, rfl⟩ := hr'
-      exact hty.rows r hr)).2]
+      exact rowOK_x o _ _ (hty.rows r hr))).2]
     simp
   · intro pr hpr
     have := specRows_zip_inputs o _ _ [] hrok _ (by rw [← hex]; exact hzip pr hpr)
@@ -251,6 +252,69 @@ theorem rows_faithful (cfg : Cfg) (o : NumOracle F) (d : Char) (eol : Str) (t : 
     rw [← hcl] at h2
     exact ⟨id, h1, lookup_of_mem _ hinv _ _ h2, className_of_mem _ hinv _ _ h2⟩
   · exact hsk
+
+/-- **rows_faithful (XRFF).**  `XHeader` describes the attribute list of a well-formed document
+    (class attribute marked, or by default the last one); `h.cols` are the columns it prescribes
+    (output first; a nominal / string class attribute is numeric), `h.k` the position of the output
+    value in an instance.  If the instances (those the filter keeps) have a value in position `h.k`,
+    their cells convert under the domains of the header (`RowOKx`) and the output values are all
+    numbers or all labels (≠ 1 classes), `read_xrff` returns the number of instances kept and one
+    example per instance, in order: inputs = the values of the other attributes in their order,
+    output = the number / the class id (label recoverable from the id). -/
+theorem rows_faithful_xrff (cfg : Cfg) (o : NumOracle F) (filter : List Str → Bool) (h : XHeader) (hwf : h.WF)
+    (insts : List (List Str))
+    (hrows : ∀ r ∈ insts.filter filter, h.k < r.length ∧ RowOKx o (h.cols.map (·.dom)) (rot r h.k))
+    (hcls : Regr o (h.cols.map (·.dom)) ((insts.filter filter).map (fun r => rot r h.k)) ∨
+            (Classif o (h.cols.map (·.dom)) ((insts.filter filter).map (fun r => rot r h.k)) ∧
+             (specRows o (h.cols.map (·.dom)) [] ((insts.filter filter).map (fun r => rot r h.k))).1.length ≠ 1)) :
+    ∃ df, readXrff cfg o filter (.doc h.attrs (some insts)) = .ok (df, (insts.filter filter).length) ∧
+      df.examples.length = (insts.filter filter).length ∧
+      (∀ pr ∈ (insts.filter filter).zip df.examples,
+        pr.2.input = inputVals o (h.cols.map (·.dom)).tail (rot pr.1 h.k).tail) ∧
+      (Regr o (h.cols.map (·.dom)) ((insts.filter filter).map (fun r => rot r h.k)) →
+        df.classes = [] ∧
+        ∀ pr ∈ (insts.filter filter).zip df.examples,
+          pr.2.output = if outDom (h.cols.map (·.dom)) = .void then .void
+            else cellVal o (outDom (h.cols.map (·.dom))) ((rot pr.1 h.k).headD [])) ∧
+      (Classif o (h.cols.map (·.dom)) ((insts.filter filter).map (fun r => rot r h.k)) →
+        ClassInv df.classes ∧
+        ∀ pr ∈ (insts.filter filter).zip df.examples, ∃ id : Nat,
+          pr.2.output = .int id ∧
+          lookup df.classes (trim ((rot pr.1 h.k).headD [])) = some id ∧
+          className df.classes id = trim ((rot pr.1 h.k).headD [])) ∧
+      skel df.cols = skel h.cols := by
+  obtain ⟨df, hread, hex, hcl, hsk⟩ := readXrff_faithful cfg o filter h hwf insts hrows hcls
+  have hrx : ∀ r' ∈ (insts.filter filter).map (fun r => rot r h.k), RowOKx o (h.cols.map (·.dom)) r' := by
+    intro r' hr'
+    simp only [List.mem_map] at hr'
+    obtain ⟨r, hr, rfl⟩ := hr'
+    exact (hrows r hr).2
+  have hrok : ∀ r' ∈ (insts.filter filter).map (fun r => rot r h.k), r' ≠ [] := by
+    intro r' hr' hnil
+    have := hrx r' hr'
+    rw [hnil] at this
+    cases hD : h.cols.map (·.dom) <;> simp [hD, RowOKx] at this
+  have hzip : ∀ pr ∈ (insts.filter filter).zip df.examples,
+      (rot pr.1 h.k, pr.2) ∈ ((insts.filter filter).map (fun r => rot r h.k)).zip df.examples := by
+    intro pr hpr
+    rw [List.zip_map_left]
+    exact List.mem_map.2 ⟨pr, hpr, rfl⟩
+  refine ⟨df, hread, ?_, ?_, ?_, ?_, hsk⟩
+  · rw [hex, (specRows_inputs o _ _ [] hrx).2]; simp
+  · intro pr hpr
+    exact specRows_zip_inputs o _ _ [] hrok _ (by rw [← hex]; exact hzip pr hpr)
+  · intro hr
+    refine ⟨by rw [hcl]; exact specRows_regr o _ _ [] hr, ?_⟩
+    intro pr hpr
+    exact specRows_zip_regr o _ _ [] hrok hr _ (by rw [← hex]; exact hzip pr hpr)
+  · intro hc
+    obtain ⟨hinv, _, _⟩ := specRows_classif o _ _ [] classInv_nil hc
+    rw [← hcl] at hinv
+    refine ⟨hinv, ?_⟩
+    intro pr hpr
+    obtain ⟨id, h1, h2⟩ := specRows_zip_classif o _ _ [] hrok classInv_nil hc _ (by rw [← hex]; exact hzip pr hpr)
+    rw [← hcl] at h2
+    exact ⟨id, h1, lookup_of_mem _ hinv _ _ h2, className_of_mem _ hinv _ _ h2⟩
 
 /-- **header_names.**  With a header the column names are the (trimmed) header cells, output
     column first; without one they are empty – this is the `skel` clause of `rows_faithful`: -/
@@ -441,5 +505,26 @@ example : Unambiguous digitOracle ',' (some ["x".toList, "y".toList])
     simp at hc
     rcases hc with rfl | rfl <;>
       simp [HeadCell, PlainCell, preferred, isBlank, isSpace, isNumber, trim, digitOracle] <;> decide
+
+/-- an XRFF document (numeric attribute `x`, nominal class attribute `c`, instances `1,u` and `2,v`)
+    meets the hypotheses of `rows_faithful_xrff` -/
+example : ∃ df : DF Nat, readXrff {} digitOracle (fun _ => true)
+    (.doc [⟨['x'], false, "numeric".toList, []⟩, ⟨['c'], true, "nominal".toList, []⟩]
+          (some [[['1'], ['u']], [['2'], ['v']]])) = .ok (df, 2) := by
+  obtain ⟨df, h, _⟩ := rows_faithful_xrff {} digitOracle (fun _ => true)
+    (.explicit [⟨['x'], false, "numeric".toList, []⟩] ⟨['c'], true, "nominal".toList, []⟩ [])
+    (by simp [XHeader.WF])
+    [[['1'], ['u']], [['2'], ['v']]]
+    (by
+      intro r hr
+      simp at hr
+      rcases hr with rfl | rfl <;>
+        simp [XHeader.k, XHeader.cols, colOf, colOfOut, fromWeka, rot, RowOKx, OutOK, InputsOK, CellOK, isNumber,
+          trim, isSpace, digitOracle])
+    (by
+      right
+      simp [XHeader.k, XHeader.cols, colOf, colOfOut, fromWeka, rot, Classif, outDom, specRows, outVal, encode,
+        lookup, isNumber, trim, isSpace, digitOracle])
+  exact ⟨df, h⟩
 
 end Vita.C09
